@@ -28,7 +28,9 @@ type rangeAggIterator struct {
 	// window state
 	window   map[GroupingKey]Series
 	interval time.Duration
-	entry    SampledEntry
+	// offset is the offset modifier: the window is shifted back by it, the step timestamp is not.
+	offset time.Duration
+	entry  SampledEntry
 	// buffered whether last entry is buffered
 	buffered bool
 }
@@ -62,6 +64,11 @@ func RangeAggregation(
 		}
 	}
 
+	var offset time.Duration
+	if o := expr.Range.Offset; o != nil {
+		offset = o.Duration
+	}
+
 	return &rangeAggIterator{
 		iter: iter,
 
@@ -73,6 +80,7 @@ func RangeAggregation(
 
 		window:   map[GroupingKey]Series{},
 		interval: expr.Range.Range,
+		offset:   offset,
 	}, nil
 }
 
@@ -88,7 +96,8 @@ func (i *rangeAggIterator) Next(r *Step) bool {
 	i.fillWindow(windowStart, windowEnd)
 
 	// Aggregate the window.
-	r.Timestamp = otelstorage.NewTimestampFromTime(current)
+	// start and end are already shifted by the offset, report the evaluation time.
+	r.Timestamp = otelstorage.NewTimestampFromTime(current.Add(i.offset))
 	r.Samples = r.Samples[:0]
 	for _, s := range i.window {
 		r.Samples = append(r.Samples, Sample{
